@@ -56,7 +56,8 @@ $(GEN)/crypt.h: $(REPO)/lib/crypt.h.in $(REPO)/lib/hashes.conf $(REPO)/config.h 
 
 # ---- symbol redirection lists (library objects only)
 REDIR_MEM := malloc realloc free mmap munmap arc4random_buf __assert_fail abort \
-             calloc posix_memalign aligned_alloc mmap64 strdup strndup reallocarray memalign valloc
+             calloc posix_memalign aligned_alloc mmap64 strdup strndup reallocarray memalign valloc \
+             madvise posix_madvise mlock mlock2 munlock mprotect mincore
 REDIR_THR := memcpy memmove memset explicit_bzero memcmp bcmp snprintf \
              pthread_mutex_lock pthread_mutex_trylock pthread_mutex_unlock pthread_once \
              pthread_rwlock_rdlock pthread_rwlock_wrlock pthread_rwlock_unlock pthread_spin_lock pthread_spin_unlock \
@@ -154,7 +155,7 @@ $(B)/refsrv: $(SIM)/refsrv.c $(ref_LIBOBJ) $(GENHDR)
 # ---- C12 workload B: util-get-random-bytes.c in its fallback configurations
 # (shadow config.h that #undefs HAVE_ARC4RANDOM_BUF etc.), see sim/rngsim.cc
 RNGV := 0 1 2 3 4 5 6 7
-RNG_REDIR := getentropy getrandom syscall open open64 read close __assert_fail abort
+RNG_REDIR := getentropy getrandom syscall open open64 read close __assert_fail abort time clock_gettime gettimeofday getpid
 define RNGRULE
 $(B)/rng/grb$(1).o: $(REPO)/lib/util-get-random-bytes.c $(SIM)/rngcfg/config.h $(GENHDR) $(REPO)/config.h
 	$(CLANG) -O1 -g -fsanitize=address -DRNGV=$(1) -DREPO_CONFIG_H='"$(REPO)/config.h"' -I$(SIM)/rngcfg $(LIBCPP) -c $$< -o $$@.raw.o
